@@ -17,10 +17,14 @@ def p_trace(manager, pot):
     for name, fe in (("high", th.freeEnergyHigh), ("low", th.freeEnergyLow)):
         Ts = np.asarray(fe._interpolationPoints, dtype=float)
         vals = np.asarray(fe._interpolationValues, dtype=float)
-        lo, hi = pot.exists(name)
+        # soft ends (the continuous family of minima passes to another closed-form
+        # branch, e.g. phi=0 -> phi_- at T0 in poly1) are admissible continuations
+        ex = getattr(pot, "exists_soft", pot.exists)
+        vp = getattr(pot, "V_phase_soft", pot.V_phase)
+        lo, hi = ex(name)
         if Ts.min() < lo * (1 - 1e-5) or Ts.max() > hi * (1 + 1e-5):
             return False, f"{name} table leaves the existence interval"
-        Vex = pot.V_phase(name, Ts)
+        Vex = vp(name, Ts)
         if np.max(np.abs(vals[:, -1] - Vex) / (np.abs(Vex) + 1e-300)) > 1e-5:
             return False, f"{name} table off its branch"
     return True, ""
